@@ -476,6 +476,12 @@ class modict(odict):
     def has_key(self, key):
         return key in self
 
+    def insert(self, index, key, val):
+        """
+        Insert single item list of val at index if key not in modict
+        """
+        super(modict, self).insert(index, key, [val])
+
     def append(self, key, value):
         """
         Add a new value to the list of values for this key.
